@@ -182,6 +182,17 @@ def run(ctx):
             lim_programs.append(q)
             boundary = c * ((m + c - 1) // c)
             expect[q] = ("ok", min(total, boundary - 1))
+        # max_duration: an expired budget (0 ms) ends the run at the first checkpoint boundary, alone and together
+        # with a permutation limit that is not reached; a budget far beyond the run never cuts
+        for c in (1, 2, 3, 5):
+            for extra in ({}, {"perm": 1000000}):
+                q = set_cfg(p, intv=c, dur=0, **extra)
+                lim_programs.append(q)
+                expect[q] = ("ok", min(total, c - 1))
+        for extra in ({}, {"perm": 1000000}, {"perm": 2}):
+            q = set_cfg(p, intv=1, dur=3600000, **extra)
+            lim_programs.append(q)
+            expect[q] = ("ok", min(total, 1) if extra.get("perm") == 2 else total)
     impl2, twin2, dis2 = ctx.correspond(lim_programs, cap, view="explore")
     differing |= {d["program"] for d in dis2}
     for q in lim_programs:
